@@ -832,16 +832,37 @@ func (pid *PID) Restart(ctx context.Context) error {
 	tree := actorSystem.tree()
 	deathWatch := actorSystem.getDeathWatch()
 
-	// snapshot all alive descendants before shutdown so we can rebuild the full subtree
-	// even after the death watch removes entries from the tree.
-	subtree := buildRestartSubtree(pid, tree)
 	// get the parent node of the actor
 	parent := pid.ActorSystem().NoSender()
 	if ppid, ok := tree.parent(pid); ok {
 		parent = ppid
 	}
 
+	// snapshot all alive descendants before shutdown so we can rebuild the full subtree
+	// even after the death watch removes entries from the tree.
+	subtree := buildRestartSubtree(pid, tree)
 	return restartSubtree(ctx, subtree, parent, tree, deathWatch, actorSystem)
+}
+
+// restartUnder restarts a local child below the given parent. The restart
+// directive uses it instead of Restart: when an attempt fails after the
+// embedded shutdown, the death watch has already removed the child from the
+// tree, so a retried Restart could no longer look its parent up and would
+// leave the restarted child running outside the tree.
+func (pid *PID) restartUnder(ctx context.Context, parent *PID) error {
+	if pid == nil || pid.Path() == nil {
+		return gerrors.ErrUndefinedActor
+	}
+
+	if pid.IsRemote() || parent == nil {
+		return pid.Restart(ctx)
+	}
+
+	pid.logger.Debugf("restarting actor=%s", pid.Name())
+	actorSystem := pid.ActorSystem()
+	tree := actorSystem.tree()
+	subtree := buildRestartSubtree(pid, tree)
+	return restartSubtree(ctx, subtree, parent, tree, actorSystem.getDeathWatch(), actorSystem)
 }
 
 // RestartCount returns the total number of times this actor has been restarted.
@@ -3057,9 +3078,14 @@ func (pid *PID) restartChild(spid *PID, sup *supervisor.Supervisor, delay time.D
 
 	var err error
 
+	// the parent is known here; a failed attempt must not make the next one
+	// lose it, nor the restart count the failed attempt's shutdown has reset
+	restarts := spid.restartCount.Load()
+	restart := func(ctx context.Context) error { return spid.restartUnder(ctx, pid) }
+
 	switch {
 	case maxRetries == 0 || timeout <= 0:
-		err = spid.Restart(ctx)
+		err = restart(ctx)
 	default:
 		// bound the attempts when the restart itself keeps failing (e.g. a
 		// PreStart error); reuse the backoff bounds when configured, otherwise
@@ -3070,7 +3096,11 @@ func (pid *PID) restartChild(spid *PID, sup *supervisor.Supervisor, delay time.D
 		}
 
 		retrier := retry.NewRetrier(int(maxRetries), initial, maximum)
-		err = retrier.RunContext(ctx, spid.Restart)
+		err = retrier.RunContext(ctx, restart)
+	}
+
+	if err == nil {
+		spid.restartCount.Store(restarts + 1)
 	}
 
 	if err != nil {
